@@ -81,10 +81,15 @@ def _registry(draw) -> dict:
 
 
 def strategy(tier: str):
+    # what the application sends meanwhile (parked for sleeping nodes): the reactions must not be influenced by it
+    send = st.builds(lambda n, c, cmd, t, p, b: ["send", [n, c, cmd, 0, t, p if cmd == 1 else ""], b], st.sampled_from((1, 2, 3)), st.sampled_from((0, 1)), st.sampled_from((1, 1, 1, 2)),
+                     st.sampled_from((0, 2)), gen.short_payloads, st.sampled_from((None, None, False)))
     op = gen.weighted(
         (8, gen.with_ack(_lines()).map(lambda l: ["rx", l])),
+        (2, send),
         (1, st.builds(lambda n, v: ["flag", n, "reboot", v], st.sampled_from((1, 2, 3)), st.booleans())),
         (1, st.builds(lambda v: ["metric", v], st.booleans())),
+        (1, st.sampled_from((["read_error", "read"], ["read_error", "failed"], ["save"], ["reload"]))),
     )
     return st.fixed_dictionaries(
         {
@@ -112,6 +117,14 @@ def enumerate_cases(tier: str):
         ops += [op for t in types for op in (["rx", f"1;1;2;0;{t};\n"], ["rx", f"1;1;1;0;{t};w{t}\n"], ["rx", f"1;1;2;1;{t};\n"])]
         for mode in ("fresh", "persistent"):
             yield {"version": version, "metric": True, "tz": "UTC0", "epoch": 1_700_000_000, "registry": stored, "ops": ops, "listen_mode": mode}
+    # a value is stored AND a different one is parked for the same child/type of a sleeping node: the request gets the stored one
+    for version in (None, "1.5", "2.0", "2.2"):
+        reg = {"7": {"node_id": 7, "node_type": 17, "protocol_version": "2.0", "sketch_name": "", "sketch_version": "", "battery_level": 0, "heartbeat": 0, "sleeping": True, "reboot": False,
+                     "children": {"3": {"child_id": 3, "child_type": 3, "description": "", "values": {"2": "0", "0": "20.5"}}}}}
+        for ack in (0, 1):
+            ops = [["send", [7, 3, 1, 0, 2, "1"], None], ["rx", f"7;3;2;{ack};2;\n"], ["send", [7, 3, 1, 1, 0, "99"], None], ["rx", f"7;3;2;{ack};0;\n"], ["send", [7, 3, 2, 0, 2, ""], None], ["rx", f"7;3;2;{ack};2;\n"]]
+            for mode in ("fresh", "persistent"):
+                yield {"version": version, "metric": True, "tz": "UTC0", "epoch": 1_700_000_000, "registry": reg, "ops": ops, "listen_mode": mode}
     # every sender id asks for an id, for the time, for the configuration (the answer goes to the asker, not to a fixed address)
     for version in (None, "1.5", "2.2"):
         ops = []
